@@ -10,6 +10,7 @@ caller's buffer holds `buf`, `Res.panic` = the `debug_assert!` at the end of `tr
 -/
 import XrayProofs.Sort
 import XrayProofs.Derive
+import XrayProofs.Format
 namespace XrayModel.C19
 open XrayModel XrayModel.Sort
 
@@ -251,12 +252,8 @@ theorem hash_congr_opt {f : β → β → R Bool} {g : β → β → Bool} {hf :
       simp only [optEqB] at he'
       simp only [optHash, hh a, hh b, hc a b he']
 
-/-- the hash of a set depends only on the multiset of its buckets (not on `HashMap`'s iteration
-order) and lies in `[0, 2^64)`.  (Two equal sets have the same buckets once empty buckets are never
-kept — the C17 repair of `remove`/`discard`.) -/
-theorem hash_set_order_independent {b1 b2 : List (Nat × List β)} (h : b1.Perm b2) :
-    setHash b1 = setHash b2 ∧ setHash b1 < 2 ^ 64 :=
-  ⟨setHash_perm h, by simpa [U64] using setHash_range b1⟩
+/- set / mapping `hash` congruence (equal sets hash equally, range) is proved in `Props/C17.lean`
+(`set_hash_congr` and the mapping analogue) on C17's bucket model; not restated here. -/
 
 /-- derived `cmp` of sequences is lexicographic over the elements (a proper prefix comes first), is
 zero exactly on `eq`-equal sequences, is sign-antisymmetric and transitive: a total order consistent
@@ -311,5 +308,122 @@ theorem rel_ops_agree {fe : β → β → R Bool} {g : β → β → Bool} {fc :
     by_cases q1 : c b a < 0 <;> simp [q1]
 
 end derive
+
+/-! ## format specifiers -/
+section format
+open XrayModel.Format
+
+/-- `format(x, "") == to_str(x)` for ints (sign, then the decimal magnitude) and strs -/
+theorem format_empty_is_to_str (i : Int) (s : List Char) :
+    formatInt i [] = .ok ((if i < 0 then ['-'] else []) ++ magnitudeToStr 10 i.natAbs) ∧
+    formatStr s [] = .ok s := by
+  have hp : parseSpec [] = some ⟨none, none, none, none, none, false⟩ := by decide
+  constructor
+  · simp only [formatInt, hp]
+    by_cases h : i < 0 <;> simp [h, signPart, group]
+  · simp [formatStr, hp]
+
+/-- the specifier grammar is the documented one
+`[[fill]align][sign][#][0][width][grouping][.precision][mode]`: the test-suite's and the book's
+examples parse into the documented fields (checked by evaluation of the parser) -/
+theorem format_spec_grammar :
+    -- fields: fill specs ⟨fill, align, zero-padded, width⟩, precision, sign, grouping, mode, alternate
+    parseSpec "!<#6x".toList = some ⟨some ⟨some '!', some '<', false, 6⟩, none, none, none, some 'x', true⟩ ∧
+    parseSpec "+015,.3e".toList = some ⟨some ⟨none, none, true, 15⟩, some 3, some '+', some ',', some 'e', false⟩ ∧
+    parseSpec "<<".toList = some ⟨none, none, none, none, none, false⟩ ∧
+    parseSpec "0".toList = some ⟨none, none, none, none, none, false⟩ ∧
+    parseSpec "5x7".toList = none := by decide
+
+/-- width, fill character and alignment, exactly as documented: the pads have total length
+`width - len` (nothing is truncated), consist of the fill character (default space, `0` when
+zero-padded), and sit right (`<`), left (`>`, the default), between sign and digits (`=`, the default
+when zero-padded) or on both sides with the extra one on the right (`^`) -/
+theorem format_spec_fill (f : FillSpecs) (len : Nat) :
+    let ch := f.filler.getD (if f.zeroPad then '0' else ' ')
+    let al := f.alignment.getD (if f.zeroPad then '=' else '>')
+    let p := fillers f len
+    p.1.length + p.2.1.length + p.2.2.length = f.width - len ∧
+    (∀ c ∈ p.1 ++ p.2.1 ++ p.2.2, c = ch) ∧
+    (al = '<' → p.1 = [] ∧ p.2.1 = []) ∧
+    (al = '>' → p.2.1 = [] ∧ p.2.2 = []) ∧
+    (al = '=' → p.1 = [] ∧ p.2.2 = []) ∧
+    (al = '^' → p.2.1 = [] ∧ p.1.length = (f.width - len) / 2 ∧
+      p.2.2.length = (f.width - len) - (f.width - len) / 2) :=
+  fillers_spec f len
+
+/-- sign: `-` for negatives always; for the others `+` shows a plus, a space shows a space, `-` or
+nothing shows nothing -/
+theorem format_spec_sign (sp : Spec) :
+    signPart sp true = ['-'] ∧
+    (sp.sign = some '+' → signPart sp false = ['+']) ∧
+    (sp.sign = some ' ' → signPart sp false = [' ']) ∧
+    (sp.sign = some '-' ∨ sp.sign = none → signPart sp false = []) := by
+  refine ⟨rfl, ?_, ?_, ?_⟩
+  · intro h; simp [signPart, h]
+  · intro h; simp [signPart, h]
+  · rintro (h | h) <;> simp [signPart, h]
+
+/-- grouping only inserts the separator (deleting it gives the digits back), one after every three
+digits counted from the right -/
+theorem format_spec_group (sp : Spec) (g : Char) (hg : sp.grouping = some g) (ds : List Char)
+    (hd : ∀ c ∈ ds, c ≠ g) :
+    (group sp ds).filter (· != g) = ds ∧ (group sp ds).length = ds.length + (ds.length - 1) / 3 := by
+  simp only [group, hg]
+  constructor
+  · rw [List.filter_reverse, groupRev_filter g ds.reverse (by simpa using hd), List.reverse_reverse]
+  · simp [groupRev_length]
+
+/-- the int pipeline puts the pieces together as documented: prefix pad, sign (+ `0`mode in the
+alternate form), infix pad, grouped digits, postfix pad -/
+theorem format_spec_int (i : Int) (spec : List Char) (sp : Spec) (f : FillSpecs) (radix : Nat)
+    (hp : parseSpec spec = some sp) (hprec : sp.precision = none) (hfill : sp.fill = some f)
+    (halt : sp.alt = false)
+    (hmode : (sp.mode = none ∧ radix = 10) ∨ (sp.mode = some 'x' ∧ radix = 16) ∨
+           (sp.mode = some 'o' ∧ radix = 8) ∨ (sp.mode = some 'b' ∧ radix = 2)) :
+    let body := group sp (magnitudeToStr radix i.natAbs)
+    let sg := signPart sp (decide (i < 0))
+    let p := fillers f (body.length + sg.length)
+    formatInt i spec = .ok (p.1 ++ sg ++ p.2.1 ++ body ++ p.2.2) := by
+  intro body sg p
+  simp only [formatInt, hp, hprec, Option.isSome_none, Bool.false_eq_true, ite_false, halt, hfill]
+  rcases hmode with ⟨h, rfl⟩ | ⟨h, rfl⟩ | ⟨h, rfl⟩ | ⟨h, rfl⟩ <;> simp only [h] <;> rfl
+
+/-- the str pipeline: no sign / grouping / mode / precision; pads around the text — and never the
+`assert!(infix.is_empty())` panic (that needed the `fix:` 86cb0e6 for `"05"`) -/
+theorem format_spec_str (s spec : List Char) :
+    formatStr s spec ≠ .panic ∧
+    ∀ sp f, parseSpec spec = some sp → sp.fill = some f → ∀ out, formatStr s spec = .ok out →
+      out = (fillers f s.length).1 ++ s ++ (fillers f s.length).2.2 := by
+  constructor
+  · unfold formatStr
+    split
+    · simp
+    · rename_i sp _
+      split; · simp
+      split; · simp
+      split; · simp
+      split; · simp
+      split
+      · simp
+      · rename_i f _
+        split
+        · simp
+        · rename_i hcond
+          have : (fillers f s.length).2.1 = [] := by
+            apply fillers_infix_nil
+            simpa [Bool.or_eq_true, Bool.and_eq_true] using hcond
+          simp [this]
+  · intro sp f hp hf out hout
+    simp only [formatStr, hp, hf] at hout
+    split at hout; · cases hout
+    split at hout; · cases hout
+    split at hout; · cases hout
+    split at hout; · cases hout
+    split at hout; · cases hout
+    split at hout
+    · cases hout
+    · cases hout; rfl
+
+end format
 
 end XrayModel.C19
